@@ -1,6 +1,7 @@
 package main
 
 import (
+	"time"
 	"bytes"
 	"errors"
 	"fmt"
@@ -364,8 +365,26 @@ func runC11(c *rt.Ctx) {
 				c11Decode(w, []byte(t))
 			}
 			w.ClassN("text-form-given-to-binary-decoder", 1)
+			// binary forms other packages use for the same day (package time's own, gob's): the version byte may
+			// coincide, the layout does not
+			tm := time.Date(int(y), time.Month(m), d, 0, 0, 0, 0, time.UTC)
+			if tb, err := tm.MarshalBinary(); err == nil {
+				c11Decode(w, tb)
+				c11Decode(w, tb[:7])
+				c11Decode(w, append(c11Encode(y, m, d), tb[7:]...))
+			}
+			if tb, err := tm.In(time.FixedZone("X", 3600)).MarshalBinary(); err == nil {
+				c11Decode(w, tb)
+			}
+			if gb, err := tm.GobEncode(); err == nil {
+				c11Decode(w, gb)
+			}
+			sec := uint64(tm.Unix())
+			c11Decode(w, []byte{1, byte(sec >> 56), byte(sec >> 48), byte(sec >> 40), byte(sec >> 32), byte(sec >> 24), byte(sec >> 16), byte(sec >> 8), byte(sec)})
+			w.ClassN("other-binary-encodings-of-the-same-day", 1)
 		}
 	})
+	c.Require("other-binary-encodings-of-the-same-day", 30000)
 	c.Require("text-form-given-to-binary-decoder", 30000)
 	c.Exhaustive("all 256 version bytes x lengths {1,6,7,8}; all lengths 0..16")
 
